@@ -101,9 +101,9 @@ func (x *Ctx) Engine() *scan.Engine {
 					continue
 				}
 				b, ok := res.At(i).Type().Underlying().(*types.Basic)
-				if !ok || b.Info()&(types.IsInteger|types.IsBoolean|types.IsFloat) == 0 {
+				if !ok || b.Info()&(types.IsInteger|types.IsBoolean|types.IsFloat|types.IsString) == 0 {
 					scalar = false
-				} else if b.Info()&types.IsFloat != 0 {
+				} else if b.Info()&(types.IsFloat|types.IsString) != 0 {
 					hasErr = true // numeric kernels (eiselLemire64, atof64exact) stay opaque; see below
 				}
 			}
@@ -126,6 +126,38 @@ func (x *Ctx) Engine() *scan.Engine {
 			if fn := x.W.SRoot.Func(m.Name); fn != nil {
 				e.Machines[fn] = m.Name
 				delete(e.Inline, fn)
+			}
+		}
+		// the exported buffer wrappers of the machines (SkipValue(data, buffer) = skipValue + stack store-back): a
+		// scanner that goes through one of them is followed into it
+		for _, fn := range x.W.SrcFuncs() {
+			if !x.W.InLib(fn) || fn.Signature.Recv() != nil || len(fn.Blocks) == 0 || fn.Parent() != nil || e.Machines[fn] != "" {
+				continue
+			}
+			hasBuf := false
+			for _, p := range fn.Params {
+				if pt, ok := p.Type().(*types.Pointer); ok {
+					if nt, ok := pt.Elem().(*types.Named); ok && nt.Obj().Name() == "Buffer" {
+						hasBuf = true
+					}
+				}
+			}
+			res := fn.Signature.Results()
+			if !hasBuf || res.Len() != 2 || !isIntKind(res.At(0).Type()) || !isErrT(res.At(1).Type()) {
+				continue
+			}
+			callsMachine := false
+			for _, b := range fn.Blocks {
+				for _, ins := range b.Instrs {
+					if c, ok := ins.(*ssa.Call); ok {
+						if callee := c.Call.StaticCallee(); callee != nil && e.Machines[callee] != "" {
+							callsMachine = true
+						}
+					}
+				}
+			}
+			if callsMachine {
+				e.Inline[fn] = true
 			}
 		}
 		x.engine = e
